@@ -46,7 +46,7 @@ func init() {
 			"x peer behaviours, each applied at a reply position of the scripted correct conversation: correct; every OTHER message the library's own state map admits in that state; the reply twice; the last reply again after the conversation returned to idle; one / 600 unsolicited replies before the call; garbage (invalid CBOR, not an array, unknown message type, right type with wrong fields, empty array); a segment holding half a message; a zero-length segment; silence then close; close before the call and at every message boundary; close mid-segment and mid-header; Connection.Close() by the harness before the call / while the call waits; two-call histories per client object (first call steered to each outcome the peer can cause - success, every other admitted answer such as NoBlocks / Failure / RejectTx / IntersectNotFound, reply twice, garbage - then a second call of the same or another API of the same protocol, then peer close or Connection.Close() before the second request is on the wire / after it / after half its reply / after it was answered); plus special scripts (muxer unregister race held open with the afterLookup hook; Server.Start twice in a sub-process). " +
 			"Quick: the first other-message at every reply position, the remaining classes at the last reply position, two close boundaries plus close before the call, timeouts alternating between one hour and 250 ms. Thorough: every position x every variant x both timeout settings x 3 repetitions, two of them with schedule perturbation at the protocol / muxer hook points. A scenario is non-trivial when the handshake completed and the oracle was evaluated to the end; distinct by (call, behaviour, timeout setting, perturbation)",
 		MinNontrivial: 300,
-		RaceAnchors:   []string{"(*Connection).shutdown", "(*Connection).Close", "protocol.(*Protocol).Stop", "muxer.(*Muxer).UnregisterProtocol"},
+		RaceAnchors:   []string{"(*Connection).shutdown", "(*Connection).Close", "protocol.(*Protocol).Stop", "muxer.(*Muxer).UnregisterProtocol", "txsubmission.(*Server).handleDone", "txsubmission.(*Server).Start"},
 		Assumptions: []string{
 			"the raw peer closes the connection (or the harness calls Close) at the end of every script; the oracle is evaluated after that",
 			"a goroutine belongs to a connection when it carries the scenario's pprof label (labels are inherited by every goroutine started, directly or indirectly, from the goroutine that called NewConnection or an API call); goroutines the library starts from timers carry no label and are only seen by the final whole-process census",
